@@ -153,6 +153,61 @@ fn seq_case<C: Cm + MaskableMut + ComplementMut>(case: &Case, mask_ch: fn(u8) ->
     Ok(Pass::new(len >= 13 && mixed).class_if(sy.bits() == 5 && len >= 13, "straddling_5bit").class_if(case.s.repr.born_offset() > 0, "offset_born"))
 }
 
+#[derive(Clone, Debug, Serialize, Deserialize)]
+pub struct RawCase {
+    pub codec: CodecId,
+    pub words: Vec<u64>,
+    pub count: u16,
+}
+
+/// sequences rebuilt from arbitrary word images hold the alternative gap/pad encodings too:
+/// masking is still position-wise on the *symbols*
+fn raw_mask<C: Cm + MaskableMut>(case: &RawCase, mask_ch: fn(u8) -> Option<u8>, unmask_ch: fn(u8) -> Option<u8>) -> PResult {
+    let n_ = C::ID.name();
+    let m = C::ID.model();
+    let bits = m.bits;
+    let raw: Vec<usize> = case.words.iter().map(|w| *w as usize).collect();
+    let cap = raw.len() * 64 / bits;
+    let n = scale16(case.count, cap);
+    let s = match Seq::<C>::from_raw(n, &raw) {
+        Some(s) => s,
+        None => fail!("harness", "from_raw({n}) refused"),
+    };
+    let chars: Vec<u8> = (0..n)
+        .map(|i| {
+            let p = (0..bits).fold(0u8, |acc, b| acc | ((model::bit_of(&case.words, i * bits + b) as u8) << b));
+            m.ch(m.decode_bits(p).unwrap())
+        })
+        .collect();
+    ensure_eq!(s.to_string().into_bytes(), chars.clone(), format!("raw_display/{n_}"), "display of a sequence rebuilt from a word image");
+    let tm = no_panic(&format!("raw_to_mask_panic/{n_}"), "to_mask on a rebuilt sequence", || s.to_mask())?;
+    let tu = no_panic(&format!("raw_to_unmask_panic/{n_}"), "to_unmask on a rebuilt sequence", || s.to_unmask())?;
+    ensure_eq!(tm.len(), n, format!("raw_mask_len/{n_}"), "length after to_mask");
+    ensure_eq!(tu.len(), n, format!("raw_mask_len/{n_}"), "length after to_unmask");
+    let (dm, du) = (tm.to_string().into_bytes(), tu.to_string().into_bytes());
+    let mut alt = false;
+    for i in 0..n {
+        let p = (0..bits).fold(0u8, |acc, b| acc | ((model::bit_of(&case.words, i * bits + b) as u8) << b));
+        alt |= m.alts.iter().any(|a| a.0 == p);
+        if let Some(e) = mask_ch(chars[i]) {
+            ensure_eq!(dm[i] as char, e as char, format!("raw_mask/{n_}"), "position {i} ('{}', bit pattern {p:#b}) after to_mask", chars[i] as char);
+        }
+        if let Some(e) = unmask_ch(chars[i]) {
+            ensure_eq!(du[i] as char, e as char, format!("raw_unmask/{n_}"), "position {i} ('{}', bit pattern {p:#b}) after to_unmask", chars[i] as char);
+        }
+    }
+    check_symbols(&Syms::<C>::new()?, &s, &chars.iter().map(|c| m.parse_byte(*c).unwrap()).collect::<Vec<u8>>(), &format!("raw_receiver/{n_}"))?;
+    Ok(Pass::new(n >= 13).class_if(alt, "alt_pattern_in_sequence"))
+}
+
+fn raw_dispatch(c: &RawCase) -> PResult {
+    match c.codec {
+        CodecId::MIupac => raw_mask::<MIupacC>(c, |x| Some(mi_mask(x)), |x| Some(mi_unmask(x))),
+        CodecId::MDna => raw_mask::<MDnaC>(c, md_toggle, md_toggle),
+        _ => fail!("harness", "not a masked codec"),
+    }
+}
+
 fn md_toggle_total(ch: u8) -> u8 {
     md_toggle(ch).unwrap()
 }
@@ -191,7 +246,7 @@ pub fn run(ctx: &mut Ctx) {
         ctx.forall(&format!("sequences/{}", id.name()), cases, strat(id, max), dispatch);
     }
     for id in [CodecId::MIupac, CodecId::MDna] {
-        let lens = gen::long_lens(ctx.thorough());
+        let lens = gen::long_lens(ctx.thorough(), ctx.seed);
         let m = id.model();
         let allowed: Vec<u8> = m.syms.iter().filter(|s| s.1 != b'?' && s.1 != b'!').map(|s| s.0).collect();
         ctx.forall_lens(
@@ -211,6 +266,19 @@ pub fn run(ctx: &mut Ctx) {
             dispatch,
         );
     }
+    for id in [CodecId::MIupac, CodecId::MDna] {
+        let cases = ctx.cases(1500, 10);
+        // words made of repeated nibbles reach the alternative gap/pad encodings (0b0011, 0b0101) often
+        let word = prop_oneof![
+            4 => any::<u64>(),
+            2 => proptest::collection::vec(proptest::sample::select(vec![3u64, 5, 12, 10, 0, 15, 8, 1, 6, 9]), 16).prop_map(|v| v.iter().enumerate().fold(0u64, |acc, (i, x)| acc | (x << (4 * i)))),
+            1 => Just(0x3333_3333_3333_3333u64),
+            1 => Just(0x5555_5555_5555_5555u64),
+        ];
+        let st = (proptest::collection::vec(word, 0..=5), any::<u16>()).prop_map(move |(words, count)| RawCase { codec: id, words, count });
+        ctx.forall(&format!("raw_images/{}", id.name()), cases, st, raw_dispatch);
+    }
+    ctx.require_class("alt_pattern_in_sequence");
     ctx.require_class("alt_pattern");
     ctx.require_class("straddling_5bit");
     ctx.require_class("offset_born");
